@@ -29,7 +29,7 @@ RULE = (
     "other texts in between); non-trivial = text of >= 2 tokens; distinct = distinct texts"
 )
 ASSUMPTIONS = ["an invalid regular expression inside a pattern counts as a reported definition error, not as a well-formed text"]
-MUST_SEE = ["edge_whitespace_characters", "payloads_naming_unknown_class_read_before", "syntax_error_next_to_format_characters", "regex_unpaired_brackets", "regex_engine_limit_literals", "regex_inner_whitespace", 
+MUST_SEE = ["class_object_that_is_falsy", "edge_whitespace_characters", "payloads_naming_unknown_class_read_before", "syntax_error_next_to_format_characters", "regex_unpaired_brackets", "regex_engine_limit_literals", "regex_inner_whitespace", 
     "xpath_accepted", "xpath_rejected", "pattern_accepted", "pattern_rejected", "mutations_still_valid", "whitespace_variants", "recompiles_cold",
     "recompiles_hot", "unknown_class", "non_node_class", "duplicate_capture", "var_before_capture", "var_inside_own_capture", "random_strings", "late_defined_class", "compile_after_rejected", "escaped_quote_regexes",
 ]
@@ -397,6 +397,18 @@ def run_shard(ctx):
                 check_pattern(text, None, "edge-whitespace")
             for text in (ch + f"//{P}Leaf", f"//{P}Leaf" + ch):
                 check_xpath(text, None, "edge-whitespace")
+        # a node class whose class object is falsy (its metaclass counts instances: len(cls) == 0) is a class like any other
+        if f"{P}Counted17" not in U.module.__dict__:
+            src = (
+                f"class _CountMeta17(type({P}Expr)):\n    def __len__(cls):\n        return 0\n\n\n"
+                f"@dataclass(frozen=True)\nclass {P}Counted17({P}Expr, metaclass=_CountMeta17):\n    v: int = 0\n"
+            )
+            exec(compile(src, "<c17 counted>", "exec", dont_inherit=True), U.module.__dict__)
+        for text in (f"({P}Counted17)", f"({P}Leaf | {P}Counted17 @v -> a)", f"({P}Un @child=({P}Counted17))"):
+            ctx.count("class_object_that_is_falsy")
+            check_pattern(text, "accept", "falsy-class-object")
+        for text in (f"//{P}Counted17", f"/{P}List/@items {P}Counted17"):
+            check_xpath(text, "accept", "falsy-class-object")
         # regex literals holding brackets that are not paired as text (escaped, or inside a character class)
         for rx in ("\\(", "^:-\\)$", "a[(]b", "^\\[x", "[)\\]]+", "\\)\\)\\("):
             ctx.count("regex_unpaired_brackets")
